@@ -249,6 +249,7 @@ def _direct(g: list[dict], ops: list[list] | None, chooser: Callable | None) -> 
     info: dict[str, Any] = {"tasks": [], "events": [], "loops": 1}
     done_ops: list[list] = []
     ctxs: dict[int, contextvars.Context] = {}  # finished invocation -> the context it ended with
+    cancelled_by_op: set[int] = set()  # invocations the schedule cancelled (op "cancel"), as opposed to the teardown
     w = World(g)
     wf = SimpleNamespace(_resource_manager=w.manager)
     lines: list[str] = []
@@ -276,7 +277,7 @@ def _direct(g: list[dict], ops: list[list] | None, chooser: Callable | None) -> 
             if isinstance(e, asyncio.CancelledError):
                 raise
         finally:
-            if outcome != "cancelled":  # only the teardown cancels here
+            if outcome != "cancelled" or tid in cancelled_by_op:  # otherwise: the teardown's cancellation
                 rec["outcome"] = outcome
                 w.events.append(f"fin:{tid}:{outcome}")
                 # what a task created by this one from now on would start with (asyncio.create_task copies the
@@ -300,7 +301,8 @@ def _direct(g: list[dict], ops: list[list] | None, chooser: Callable | None) -> 
                 op = ops[st["i"]]
                 st["i"] += 1
             else:
-                op = chooser(sorted(w.gates), offset + len(tasks), sorted(ctxs))  # type: ignore[misc]
+                live = [offset + i for i, t in enumerate(tasks) if not t.done()]
+                op = chooser(sorted(w.gates), offset + len(tasks), sorted(ctxs), live)  # type: ignore[misc]
                 if op is None or len(done_ops) > 200:
                     st["more"] = False
                     break
@@ -327,12 +329,22 @@ def _direct(g: list[dict], ops: list[list] | None, chooser: Callable | None) -> 
                     # the task tree: invocation `parent` resolved its resources and then created this task
                     # (a step body running a child workflow, user code warming a resource before a fan-out)
                     tasks.append(loop.create_task(invocation(tid, op[1], list(op[2])), context=ctxs[parent].copy()))
-            elif op[0] == "open" and isinstance(op[1], int):
+            elif op[0] == "open" and len(op) == 2 and isinstance(op[1], int):
                 gate = w.gates.get(op[1])
                 if gate is None:
                     lines.append("disabled")
                     continue
                 gate.set()
+            elif op[0] == "cancel" and len(op) == 2 and isinstance(op[1], int):
+                # the invocation's task is cancelled where it is suspended: at the await inside an async factory
+                # (a step worker cancelled by cancel_run / the workflow timeout / cleanup_tasks) or in the queue
+                # of the scope lock
+                i = op[1] - offset
+                if not 0 <= i < len(tasks) or tasks[i].done():
+                    lines.append("disabled")
+                    continue
+                cancelled_by_op.add(op[1])
+                tasks[i].cancel()
             else:
                 lines.append("bad-op")
                 continue
@@ -349,14 +361,15 @@ def _direct(g: list[dict], ops: list[list] | None, chooser: Callable | None) -> 
 
 def run_direct(g: list[dict], ops: list[list]) -> tuple[list[str], dict]:
     """ops: ["spawn", "p"|"b", [rids]] | ["spawn", "p"|"b", [rids], parent] (created by the finished
-    invocation `parent`, i.e. in a copy of its context) | ["open", tid] | ["loop"].  Returns (lines, info); info has
+    invocation `parent`, i.e. in a copy of its context) | ["open", tid] | ["cancel", tid] (the unfinished
+    invocation is cancelled where it is suspended) | ["loop"].  Returns (lines, info); info has
     per-task outcomes, injected objects and the full event list (for the monitors)."""
     lines, info, _ = _direct(g, ops, None)
     return lines, info
 
 
 def explore_direct(g: list[dict], chooser: Callable) -> list[list]:
-    """Let `chooser(gates, ntasks, finished)` pick each op from what the real execution offers."""
+    """Let `chooser(gates, ntasks, finished, live)` pick each op from what the real execution offers."""
     return _direct(g, None, chooser)[2]
 
 
@@ -366,9 +379,9 @@ def op_line(op: list) -> str:
         return ""
     if op[0] == "spawn":
         return f"spawn|{op[1]}|{','.join(map(str, op[2]))}" + (f"|{op[3]}" if len(op) == 4 else "")
-    if op[0] == "open":
-        return f"open|{op[1]}"
-    return str(op[1])
+    if op[0] in ("open", "cancel") and len(op) == 2:
+        return f"{op[0]}|{op[1]}"
+    return str(op[1] if len(op) > 1 else op[0])
 
 
 # --------------------------------------------------------------------------
@@ -378,7 +391,12 @@ def op_line(op: list) -> str:
 def run_workflow(case: dict) -> tuple[list[str], list[list], dict]:
     """case: {"g", "workers": [{"reqs", "num_workers", "count"}], "order": [worker index per event], "seed"}
     and optionally "outer": n (the workflow is run from the body of a step, with an injected resource, of n nested
-    enclosing workflows) and "pre": [rids] (bare `manager.get`s made by the running task before `run()`).
+    enclosing workflows), "pre": [rids] (bare `manager.get`s made by the running task before `run()`) and
+    "runs": [{"end": "cancel", "after": k}, ...] -- earlier runs of the SAME workflow instance (same
+    ResourceManager), each ended by `handler.cancel_run()` (the workflow timeout and a failing step end a run
+    through the same `cleanup_tasks`) at the (k+1)-th quiescent point
+    at which an invocation is suspended inside a resource factory (it completes normally if that never happens),
+    before the run that goes to completion.
     Returns (lines, ops, info) in the same format as the direct runs; ops are recorded as
     they happen (spawn = an invocation enters partial(); open = the scheduler opens a gate)."""
     from workflows import Context, Workflow
@@ -388,9 +406,11 @@ def run_workflow(case: dict) -> tuple[list[str], list[list], dict]:
 
     g = case["g"]
     rng = random.Random(case["seed"])
-    info: dict[str, Any] = {"tasks": [], "events": [], "result": "pending", "all_opened": True}
+    info: dict[str, Any] = {"tasks": [], "events": [], "result": "pending", "all_opened": True, "run_results": [],
+                            "run_end_states": [], "run_cancelled": False}
     ops: list[list] = []
     lines: list[str] = []
+    endings: list[dict] = [dict(e) for e in case.get("runs", [])] if not case.get("outer") else []
 
     async def main(loop: VLoop) -> None:
         w = World(g)
@@ -515,7 +535,19 @@ def run_workflow(case: dict) -> tuple[list[str], list[list], dict]:
                 rec["outcome"] = outcome
                 w.events.append(f"fin:{tid}:{outcome}")
 
+        cur: dict[str, Any] = {"ending": None, "handler": None, "frozen": False}
+
         def hook() -> bool:
+            if cur["frozen"]:
+                return False  # nobody acts any more: virtual time runs on to the workflow timeout
+            end = cur["ending"]
+            if end is not None and w.gates:
+                if end["after"] <= 0:
+                    cur["ending"] = None
+                    info["run_cancelled"] = True
+                    loop.create_task(cur["handler"].cancel_run())
+                    return True
+                end["after"] -= 1
             cands = [("r", t) for t in sorted(w.gates)] + [("b", i) for i in sorted(body_gates)]
             if not cands:
                 return False
@@ -533,6 +565,33 @@ def run_workflow(case: dict) -> tuple[list[str], list[list], dict]:
             try:
                 for r0 in case.get("pre", []):
                     await warm(r0)
+                for end in endings:
+                    # an earlier run of the same instance, ended from outside while (if ever) a step worker is
+                    # suspended inside a resource factory: the engine cancels the workers (cleanup_tasks)
+                    first = len(info["tasks"])
+                    state["done"] = 0
+                    cur.update(ending=end, frozen=False)
+                    cur["handler"] = wf.run()
+                    try:
+                        r = await cur["handler"]
+                        info["run_results"].append(f"ok:{r}")
+                    except asyncio.CancelledError:
+                        raise
+                    except BaseException as e:  # noqa: BLE001
+                        info["run_results"].append(f"error:{type(e).__name__}:{str(e)[:80]}")
+                    cur.update(ending=None, frozen=False)
+                    for g_ in list(body_gates.values()):
+                        g_.set()
+                    # the model's view of the engine's cleanup: the invocations still resolving are cancelled,
+                    # those queued on the scope lock first (no order among them is observable: every worker
+                    # task is cancelled before any of them runs again), then the one inside the scope
+                    gone = [t for t in range(first, len(info["tasks"])) if info["tasks"][t]["outcome"] == "cancelled"]
+                    inside = [t for t in gone if any(e.startswith(f"call:{t}:") for e in info["events"] + w.events)]
+                    for t in [t for t in gone if t not in inside] + inside:
+                        record(["cancel", t])
+                    flush()
+                    info["run_end_states"].append(w.state(phases()))
+                state["done"] = 0
                 r = await top.run()
                 info["result"] = f"ok:{r}"
             except BaseException as e:  # noqa: BLE001
@@ -544,6 +603,7 @@ def run_workflow(case: dict) -> tuple[list[str], list[list], dict]:
             loop.quiescence_hook = None
             flush()
             info["all_opened"] = not w.gates
+            info["run_end_states"].append(w.state(phases()))
 
     _run_on_vloop(main)
     if info["result"] == "pending" or info["result"] == "error:cancelled":
